@@ -162,6 +162,16 @@ def _explore(out, tier, seed, facts, replay):
                     if [float(x) for x in row[:4]] != [float(loc.id), float(loc.lat), float(loc.lon), float(loc.elev)]:
                         out.violation("descriptor", "location row %d labelled %r, expected id/lat/lon/elev of %r" % (i, row[:4], loc.id), {"argv": argv})
                         break
+            if ok and AXNAMES[ax] in ("year", "month", "week", "day") and typ == "csv":
+                # aggregated time axes: one row per period, labelled by the period's start in the axis' own format
+                import datetime
+                fmt = {"year": "%Y", "month": "%Y/%m", "week": "%Y/%U", "day": "%Y/%m/%d"}[AXNAMES[ax]]
+                for i, row in enumerate(rows):
+                    w = datetime.datetime.utcfromtimestamp(int(vals[i])).strftime(fmt)
+                    if row[0] != w:
+                        out.violation("descriptor:%s" % AXNAMES[ax], "-x %s: row %d is labelled %r, the period of that row starts at %d = %r"
+                                      % (AXNAMES[ax], i, row[0], int(vals[i]), w), {"argv": argv})
+                        break
             if ok and AXNAMES[ax] == "time" and typ == "csv":
                 import datetime
                 for i, row in enumerate(rows):
@@ -176,6 +186,58 @@ def _explore(out, tier, seed, facts, replay):
             descr.append({"argv": [os.path.basename(a) for a in argv], "digits": digits})
             if len(samples) < 3:
                 samples.append({"argv": [os.path.basename(a) for a in argv[1:]], "header": header, "first_row": rows[0] if rows else None})
+        # several thresholds on a data axis: the cell is the AVERAGE of the score over the intervals
+        for rep_ in range(4 if tier == "quick" else 40):
+            ds = datagen.gen_dataset(rng, options=False)
+            ds["cfg"] = {}
+            ds["inputs"] = [dedupe(s_) for s_ in ds["inputs"][:2]]
+            names = []
+            for i, s_ in enumerate(ds["inputs"]):
+                fn = os.path.join(tmp, "avg%d_f%d.txt" % (rep_, i))
+                write_text(fn, s_)
+                names.append(fn)
+            d = datagen.impl_data(ds)
+            if isinstance(d, tuple):
+                continue
+            dims = datagen.impl_dims(d)
+            ax = rng.choice([1, 2])           # lead time or location
+            thr = sorted(rng.sample([-2.0, -1.0, 0.0, 1.0, 2.0, 3.0, 5.0], rng.randint(2, 4)))
+            bt = rng.choice(["within", "=within", "above", "below="])
+            argv = ["verif"] + names + ["-m", "baserate", "-r", ",".join("%g" % t for t in thr), "-b", bt, "-x", AXNAMES[ax], "-type", "csv"]
+            r = run_cli(argv)
+            nf += 1
+            if r[0] != "ok":
+                continue
+            header, rows = parse_csv(r[1])
+            ndesc = len(header) - len(names)
+            if "within" in bt:
+                ivs = [(thr[i], thr[i + 1]) for i in range(len(thr) - 1)]
+                inside = (lambda x, iv: (iv[0] <= x if bt.startswith("=") else iv[0] < x) and x < iv[1])
+            elif bt == "above":
+                ivs = [(t, None) for t in thr]
+                inside = (lambda x, iv: x > iv[0])
+            else:
+                ivs = [(None, t) for t in thr]
+                inside = (lambda x, iv: x <= iv[1])
+            nsl = int(d.get_axis_size(datagen.axis_obj(ax)))
+            bad = None
+            for f in range(len(names)):
+                for ai in range(nsl):
+                    o = oracle.get_scores(ds, dims, (["obs", "fcst"], f, ax, ai), datagen.AXES)
+                    if isinstance(o, tuple) or (len(o[0]) == 1 and math.isnan(o[0][0])):
+                        w = float("nan")
+                    else:
+                        w = sum(sum(1 for x in o[0] if inside(x, iv)) / len(o[0]) for iv in ivs) / len(ivs)
+                    got = float(rows[ai][ndesc + f]) if ai < len(rows) else float("nan")
+                    if not (common.close(got, sig(w, 6), 1e-9) or common.close(got, w, 1e-5)):
+                        bad = (ai, f, got, w)
+                        break
+                if bad:
+                    break
+            distinct.add((len(names), AXNAMES[ax], "baserate-avg", bt, len(thr)))
+            if bad:
+                out.violation("cell:threshold-average", "verif %s: row %d input %d reports %r; the base rate averaged over the %d intervals is %r"
+                              % (" ".join(os.path.basename(a) for a in argv[1:]), bad[0], bad[1], bad[2], len(ivs), bad[3]), {"argv": argv})
         # thresholds: rows in the order given, labelled by the threshold
         ds = datagen.gen_dataset(rng, options=False)
         fn = os.path.join(tmp, "thr.txt")
